@@ -9,6 +9,7 @@ import (
 	"go/ast"
 	"go/token"
 	"go/types"
+	"math/big"
 
 	"github.com/goplus/gogen"
 )
@@ -229,6 +230,13 @@ func (b *B) ClosureBodyStart(fn *gogen.Func, pkg *gogen.Package) {
 	b.post("Open:closure", 0, 0)
 }
 
+// BigInt pushes an untyped big integer (XGo configuration).
+func (b *B) BigInt(v int64) {
+	b.pre("UntypedBigInt")
+	b.cb.UntypedBigInt(big.NewInt(v))
+	b.post("Val", 0, 0)
+}
+
 // VBlock opens a virtual block (a scope without braces).
 func (b *B) VBlock() { b.pre("VBlock"); b.cb.VBlock(); b.post("Open:vblock", 0, 0) }
 
@@ -246,6 +254,11 @@ func (b *B) Discard(n int) {
 	b.cb.InternalStack().PopN(n)
 	b.post("Discard", n, 0)
 }
+
+// EndInitFailed tells the observers that EndInit reported an error. EndInit cleans up after
+// itself (deferred pop and end of the initialiser context; gogen's own callInitExpr relies
+// on it: it calls ResetInit only when the initialiser callback did not return).
+func (b *B) EndInitFailed() { b.post("EndInit!fail", 0, 0) }
 
 // Abort tells the observers that an operation failed in the middle of a construct: nothing
 // is asserted until the documented recovery call that follows.
